@@ -46,7 +46,7 @@ def run_family(ctx, replay, key, mode, n_quick, n_thorough, rule, assumptions):
                 f.write(ctx_cfg_text)
             return d
         ctx._tlc_dir = patched
-        mc = ctx.tlc_mc("Framer_MC", d_cfg, timeout=1500, coverage=False)
+        mc = ctx.tlc_mc("Framer_MC", d_cfg, timeout=1700, coverage=False, extra=["-maxSetSize", "50000000"])
         ctx._tlc_dir = orig
         ctx.extra["model_bound"] = "all streams over {0,1,2,3} of length <= %d (%d distinct states)" % (n, mc["distinct"])
 
